@@ -36,6 +36,54 @@ class Guard:
         return f_key(self.F)
 
 
+def extract_guards(ip, cn, events, spell_fn=None):
+    """rejection guards of an analysed function, whichever way they are written: `assert t` and
+    `if not t: raise ...` both give Guard(F = what holds on fall-through, loops, residual = the
+    conditions under which the guard is reached that earlier guards do not already establish)"""
+    established = []      # terms known true on fall-through (earlier guards), in order
+    guards = []
+    for ev in events:
+        if ev.kind not in ("assert", "raise"):
+            continue
+        pc = ev.pc
+        if ev.kind == "assert":
+            test = ev.data["test"]
+            cond_pc = pc
+        else:
+            # `if c: raise` -> guard not c ; the raise's own condition is the last conjunct
+            conds = [c for c in pc if c[0] not in ("inloop", "fact")]
+            if not conds:
+                continue
+            last = pc[-1] if pc[-1][0] not in ("inloop", "fact") else conds[-1]
+            test = ("not", last)
+            cond_pc = tuple(c for c in pc if c is not last)
+        loops = []
+        for c in cond_pc:
+            if c[0] == "inloop":
+                info = ip.loops[c[1]]
+                loops.append(cn.show(info["iter"]) if info.get("iter") is not None
+                             else "while")
+        residual = [c for c in cond_pc if c[0] not in ("inloop", "fact")
+                    and c not in established]
+        # an `exc` marker (except handler) is kept as residual
+        F = cn.formula(test)
+        g = Guard(ev, spell_fn(F) if spell_fn else F, loops, residual, ev.kind,
+                  ev.func.split(":")[1])
+        g.test = test
+        guards.append(g)
+        established.append(test)
+    return guards
+
+
+def closed(F, loops):
+    """the guard as a statement about the whole input: a test F sitting in loops L1, L2 holds for
+    every iteration, ALL[L1] ALL[L2] F - the same formula `assert all(F for .. in L1 for .. in L2)`
+    produces"""
+    for binder in reversed(loops):
+        F = f_not(("exists", binder, f_not(F)))
+    return F
+
+
 class LoaderFacts:
     def __init__(self, ctx):
         repo = ctx.repo
@@ -56,40 +104,7 @@ class LoaderFacts:
         self.trys = [ev for ev in self.s.events if ev.kind == "except"]
 
     def _guards(self):
-        cn, ip = self.cn, self.ip
-        established = []      # terms known true on fall-through (earlier guards), in order
-        self.guards = []
-        for ev in self.s.events:
-            if ev.kind not in ("assert", "raise"):
-                continue
-            pc = ev.pc
-            if ev.kind == "assert":
-                test = ev.data["test"]
-                cond_pc = pc
-            else:
-                # `if c: raise` -> guard not c ; the raise's own condition is the last conjunct
-                conds = [c for c in pc if c[0] not in ("inloop", "fact")]
-                if not conds:
-                    continue
-                last = pc[-1] if pc[-1][0] not in ("inloop", "fact") else conds[-1]
-                test = ("not", last)
-                cond_pc = tuple(c for c in pc if c is not last)
-            loops = []
-            for c in cond_pc:
-                if c[0] == "inloop":
-                    info = ip.loops[c[1]]
-                    loops.append(cn.show(info["iter"]) if info.get("iter") is not None
-                                 else "while")
-            residual = [c for c in cond_pc if c[0] not in ("inloop", "fact")
-                        and c not in established]
-            # an `exc` marker (except handler) is kept as residual
-            g = Guard(ev, spell(cn.formula(test)), loops, residual, ev.kind,
-                      ev.func.split(":")[1])
-            g.test = test
-            self.guards.append(g)
-            established.append(test)
-            if test[0] == "not" and ev.kind == "raise":
-                established.append(test)
+        self.guards = extract_guards(self.ip, self.cn, self.s.events, spell)
         # conjunct-level view: every conjunct of an `and` guard is a guard of its own
         self.conjuncts = []
         for g in self.guards:
